@@ -266,6 +266,68 @@ func init() {
 					}
 					c.Case(0, true, "ascii-variable")
 				}})
+			// bounds must also be enforced when the same FillVariables call expands an ellipsis
+			// (the variable inside or outside the repeated group; count 0, 1, 2)
+			shapes := []string{"S1F1 <L <A[2..4] v> <U1 1> ...> .", "S1F1 <L <U1 1> ... <A[2..4] v>> .", "S1F1 <L <L <A[3] v> ...> <A[..2] w> ...> ."}
+			sp = append(sp, h.Space{Name: "ascii-variable-bounds-with-ellipsis-in-the-same-call", Count: product(len(shapes), 3, 7, 2),
+				Describe: func(i uint64) interface{} {
+					d := unrank(i, len(shapes), 3, 7, 2)
+					return fmt.Sprintf("%s filled in one call with every ellipsis=%d and a string of length %d (message=%v)", shapes[d[0]], d[1], d[2], d[3] == 1)
+				},
+				Run: func(c *h.Ctx, i uint64) {
+					d := unrank(i, len(shapes), 3, 7, 2)
+					ms, errs, _, pan := smlRun(shapes[d[0]])
+					if pan != "" || len(errs) > 0 || len(ms) != 1 {
+						c.Fail("template-not-parsed", shapes[d[0]], fmt.Sprint(pan, errs))
+						c.Case(0, true, "bad")
+						return
+					}
+					cnt, n := d[1], d[2]
+					str := strings.Repeat("q", n)
+					fill := map[string]interface{}{}
+					for _, v := range ms[0].Variables() {
+						if strings.HasPrefix(v, "...") {
+							fill[v] = cnt
+						}
+					}
+					// the name the variable has after the expansion (same call): suffix [0] per enclosing expanded group
+					var name string
+					var min, max int
+					switch d[0] {
+					case 0:
+						name, min, max = "v", 2, 4
+						if cnt > 0 {
+							name = "v[0]"
+						}
+					case 1:
+						name, min, max = "v", 2, 4
+					default:
+						name, min, max = "v", 3, 3
+						if cnt > 0 {
+							name = "v[0][0]"
+						}
+					}
+					fill[name] = str
+					in := fmt.Sprintf("%s filled with %s", shapes[d[0]], showMap(fill))
+					var p interface{}
+					var res string
+					if d[3] == 1 {
+						p = catch(func() { res = ms[0].FillVariables(fill).String() })
+					} else {
+						p = catch(func() { res = itemString(msgItem(ms[0]).FillVariables(fill)) })
+					}
+					c.Ops(1)
+					ok := n >= min && n <= max
+					switch {
+					case ok && p != nil:
+						c.Fail("fill-within-bounds-refused", in, fmt.Sprint(p))
+					case !ok && p == nil:
+						c.Fail("fill-outside-bounds-accepted", in, fmt.Sprintf("a %d-character string was accepted for [%d..%d]: %s", n, min, max, strings.ReplaceAll(res, "\n", " ")))
+					case ok && !strings.Contains(res, "\""+str+"\""):
+						c.Fail("fill-result", in, res)
+					}
+					c.Case(0, true, map[bool]string{true: "accepted", false: "refused"}[ok])
+				}})
 			// the same bounds through the factory (not only the parser)
 			sp = append(sp, h.Space{Name: "ascii-variable-factory-bounds", Count: product(R+2, R+2),
 				Describe: func(i uint64) interface{} { d := unrank(i, R+2, R+2); return fmt.Sprintf("NewASCIINodeVariable(v, %d, %d)", d[0]-1, d[1]-2) },
